@@ -540,8 +540,8 @@ func driveProviders(t *testing.T, out *vEmitter) {
 				for k := range muts {
 					m, lbl := muts[k], labels[k]
 					dst := &jobs
-					if vpCorpus[pv.name+"/"+c.name+"/"+d+lbl] {
-						dst = &first // minimised earlier failures run first, on every run
+					if vpCorpus[pv.name+"/"+c.name+"/"+d+lbl] || (c.name == "Redeem" && m.code != 0) {
+						dst = &first // minimised earlier failures, and every error status at every endpoint a login reads, run on every run
 					}
 					*dst = append(*dst, func() {
 						idp.mu.Lock()
@@ -569,6 +569,12 @@ func driveProviders(t *testing.T, out *vEmitter) {
 						if d == "token" && sess && (m.code != 0 || (m.raw != nil && vpNotJSON[*m.raw])) {
 							out.Violation("providers/"+pv.name+"/"+c.name+"/session-from-failed-token-response", "a session came out of a failed token response",
 								map[string]interface{}{"provider": pv.name, "call": c.name, "position": lbl})
+						}
+						// an error status at ANY endpoint a login reads gives no session, except where the lookup is documented as
+						// best-effort (vpTolerated)
+						if c.name == "Redeem" && sess && m.code != 0 && d != "token" && !vpTolerated[pv.name+"/"+d] {
+							out.Violation("providers/"+pv.name+"/Redeem/"+d+"/session-despite-failed-lookup", "a login completed although an endpoint it depends on answered with an error status",
+								map[string]interface{}{"provider": pv.name, "document": d, "status": m.code})
 						}
 						out.Obs(key, panicked == "" && cerr != nil, vL(vS(pv.name), vS(c.name), vS(d), vS(lbl), vBool(panicked != ""), vBool(cerr != nil)))
 					})
@@ -604,6 +610,17 @@ var vpCorpus = map[string]bool{
 	"azure-other-mails/EnrichSession/profile/otherMails/0=object":                     true,
 	"login.gov/Redeem/keys/keys=empty-array":                                          true,
 }
+
+// lookups whose failure the provider tolerates by design (the session is created without what they would have added)
+// (the verifier caches the provider's key set: once fetched, a failing key endpoint is not consulted again)
+var vpTolerated = map[string]bool{"oidc/keys": true, "oidc-profile-claims/keys": true, "keycloak-oidc/keys": true, "adfs/keys": true,
+	"azure/keys": true, "azure-other-mails/keys": true, "entra-id/keys": true, "gitlab/keys": true,
+	// Entra ID asks the profile endpoint only whether the token's group list overflowed (_claim_names); the answer is
+	// best-effort by design (the error is discarded) and adds, never grants
+	"entra-id/profile": true,
+	// GitLab adds "project:<name>" groups from the project lookups; a failed lookup adds none (logged), and the
+	// allowed-groups authorisation that follows then refuses a user who needed that project
+	"gitlab/gitlab-project": true}
 
 var vpNotJSON = map[string]bool{"": true, "{": true, `{"access_token":`: true, "<html>": true}
 
